@@ -303,6 +303,24 @@ func c13Patch(r *rand.Rand) Case {
 	if err != nil && !reflect.DeepEqual(before, after) {
 		fail = append(fail, "failing patch op changed the data")
 	}
+	// the value inserted through valueFrom is a copy: writing into the source afterwards must show
+	// at the source only
+	if vfMode == "only" && err == nil && len(fail) == 0 {
+		vf := ym["valueFrom"].(string)
+		if src, ok := d.Lookup(vf).(dom.ContainerBuilder); ok {
+			expect := deepCopy(after).(map[string]any)
+			if tgt, found := plookup(expect, parsePPath(vf)); found {
+				if tm, isMap := tgt.(map[string]any); isMap {
+					tm["zz_probe"] = 1
+					src.AddValue("zz_probe", dom.LeafNode(1))
+					if !reflect.DeepEqual(nodeToAny(d), any(expect)) {
+						fail = append(fail, "the node inserted through valueFrom is shared with its source: a write to the source showed elsewhere too")
+					}
+					src.Remove("zz_probe")
+				}
+			}
+		}
+	}
 	val := "None"
 	if vfMode == "only" {
 		val = "(Some " + gNode(rp.Val) + ")" // the document's own node at valueFrom, taken from the plain input
